@@ -1208,8 +1208,11 @@ class StmtMixin(object):
     def spec_dict_value(self, node, st, acc):
         st, d = self.eval(node.args[0], st, acc)
         st, k = self.eval(node.args[1], st, acc)
-        k = self.box(st, k)
-        return st, SV(self.heap_array(st, "$val")[self.u.r(d.z)][k.z])
+        kb = self.box(st, k)
+        z = self.heap_array(st, "$val")[self.u.r(d.z)][kb.z]
+        if d.kind == "ref" and d.cls == "dict" and d.elem:
+            return st, self.typed(z, self.dict_value_type(d, k))
+        return st, SV(z)
 
     def spec_uf_keys(self, node, st, acc):
         """the key list (insertion order) of a dict"""
